@@ -118,7 +118,7 @@ func runNative(repo, pkgPath string, harness []string, entries []string, cases [
 	for _, h := range harness {
 		habs = append(habs, h) // already absolute (possibly with an @pkgdir suffix)
 	}
-	ovl, err := sym.BuildOverlay(repo, pkgPath, habs, "/verif/zzvrf", true)
+	ovl, err := sym.BuildOverlay(repo, pkgPath, habs, filepath.Join(verifRoot, "zzvrf"), true)
 	if err != nil {
 		return nil, err
 	}
